@@ -5,6 +5,47 @@ from checks.writer_common import export_writer, replay_writer
 STACKS = ["raw", "comp", "enc", "comp+enc"]
 
 
+
+def replay_compwriter(v, tier, ev):
+    """The compression layer's write side: every transition of CompWriter on the real CompressionLayerWriter."""
+    import json
+    import os
+    cfg = f"CompWriter.{tier}.cfg"
+    r = tlc("MCCompWriter", cfg, "c01-compw", workers=1, timeout=1200)
+    ev["tlc"].append(dict(module="CompWriter", cfg=cfg, generated=r.generated, distinct=r.distinct, depth=r.depth, violation=r.violation))
+    if r.violation:
+        tlc_counterexample_violation(v, r, "MCCompWriter", cfg)
+        return
+    edges, inits = r.prints["EDGE"], r.prints["INIT"]
+    if len(edges) + len(inits) != r.generated or r.prints.get("BAD"):
+        raise ToolError("incomplete CompWriter export")
+    runs, unreachable = edge_tours(edges, inits, max_len=60)
+    if unreachable:
+        raise ToolError("CompWriter: edges unreachable from the initial state")
+    wd = workdir("c01-compw")
+    objs = []
+    for sp in (dict(stack="comp", level=5, entropy="high"), dict(stack="comp", level=0, entropy="low"),
+               dict(stack="comp", level=11, entropy="low"), dict(stack="comp+enc", level=5, entropy="high")):
+        for init, steps in runs:
+            objs.append(dict(par=dict(seed=seed() + 5, **sp), steps=[dict(lab=e["lab"], to=e["to"], footer=e["footer"]) for e in steps]))
+    rp, op = os.path.join(wd, "runs.jsonl"), os.path.join(wd, "out.json")
+    write_jsonl(rp, objs)
+    mbt("s20", "compw", rp, op, timeout=3000)
+    o = json.load(open(op))
+    for viol in o["violations"]:
+        v.violation(dict(check="compwriter-replay", kind=viol["kind"], stack=viol["par"]["stack"], op="finalize" if viol["step"] >= 0 and
+                         viol["steps"][viol["step"]]["lab"]["op"] == "finalize" else "write", name=None, src=None),
+                    dict(engine="compw", profile="s20", run=dict(par=viol["par"], steps=viol["steps"][:viol["step"] + 1]), detail=viol["detail"]))
+    if o["drifts"]:
+        log(f"MODEL-DRIFT module=CompWriter drifts={o['drifts']} sample={json.dumps(o['drift_samples'][:1])[:500]}")
+    ev["compwriter"] = dict(edges=len(edges), states=r.distinct, runs=o["runs"], steps=o["steps"], hidden_compared=o["hidden_compared"],
+                            drifts=o["drifts"], drift_samples=o["drift_samples"][:2])
+    ev["states"] = ev.get("states", 0) + r.distinct
+    ev["transitions"] = ev.get("transitions", 0) + r.generated
+    log(f"[C01] CompWriter/{cfg}: {len(edges)} edges in {len(runs)} runs x 4 variants, {o['steps']} steps replayed on the real "
+        f"CompressionLayerWriter, {o['hidden_compared']} hidden-state comparisons, {o['drifts']} drifts")
+
+
 def main(tier):
     v = Verdict("C01", tier)
     ev = dict(tlc=[])
@@ -36,7 +77,8 @@ def main(tier):
                     p["profile"] = "prod"
         replay_writer(v, "C01", runs, variants, "s20", "c01", ev,
                       stride_of=(lambda p: 1 if p["level"] == 5 and p["nrecip"] == 1 else (7 if not heavy else 3)))
-    cov = dict(states=ev.get("states", 0), transitions=ev.get("transitions", 0),
+    replay_compwriter(v, tier, ev)
+    cov = dict(states=ev.get("states", 0), transitions=ev.get("transitions", 0), compression_writer_model=ev.get("compwriter"),
                traces_validated_against_impl=ev.get("runs", 0), samples=ev.get("samples", [])[:3] or ["none"],
                edges_exported=ev.get("edges", 0), steps_replayed=ev.get("steps", 0),
                hidden_state_steps_compared=ev.get("hidden_compared", 0), archives_read_back=ev.get("readbacks", 0),
